@@ -267,7 +267,15 @@ func init() {
 			for _, call := range callsOf(fn, "getChunkSize") {
 				var probs []string
 				m0, m1, m2 := chunkSizeArgs(&call.Call)
-				if fm := c.footerStoreIn(msw, "chunkMode"); fm == nil || !c.paramChainHas(m0, fm) {
+				// (the merged footer's chunkMode may be filled in by mergeSegmentBasesWriter or by the
+				// function that writes the sections and returns the footer)
+				okMode := false
+				for _, st := range c.census().fieldStores[fieldKey{c.NamedType("footer").Obj(), "chunkMode"}] {
+					if (st.fn == msw || c.entries().MERGE[topFn(st.fn)]) && c.paramChainHas(m0, st.val) {
+						okMode = true
+					}
+				}
+				if !okMode {
 					probs = append(probs, "mode argument does not trace to the value stored in the merged footer's chunkMode")
 				}
 				if fd := c.footerStoreIn(mtw, "numDocs"); fd == nil || !c.paramChainHas(m2, fd) {
@@ -384,6 +392,7 @@ func init() {
 			}
 			// helpers of the postings list that the iterator's methods call count once per call
 			uses := map[*ssa.Function]int{}
+			helperUses := map[*ssa.Function]int{}
 			for _, fn := range c.srcFns {
 				if !isIterMethod(fn, "PostingsIterator") {
 					continue
@@ -400,8 +409,17 @@ func init() {
 							if sc := call.Call.StaticCallee(); sc != nil && sc.Blocks != nil && isIterMethod(sc, "PostingsList") && len(callsOf(sc, "getChunkSize")) == 0 {
 								uses[sc]++
 							}
+							// a helper method of the iterator itself counts once per call, too
+							if sc := call.Call.StaticCallee(); sc != nil && sc.Blocks != nil && sc != fn && isIterMethod(sc, "PostingsIterator") {
+								helperUses[sc]++
+							}
 						}
 					}
+				}
+			}
+			for f, n := range helperUses {
+				if n > uses[f] {
+					uses[f] = n
 				}
 			}
 			for _, fn := range c.srcFns {
